@@ -80,10 +80,10 @@ $(B)/libbloc_file.so.$(LIBSOVERSION): $(wildcard $(REPO)/modules/file/*.cpp) $(w
 $(B)/libbloc_sqlite3.so.$(LIBSOVERSION): $(wildcard $(REPO)/modules/sqlite3/*.cpp) $(wildcard $(REPO)/modules/sqlite3/*.h) | $(B)/obj/.dir
 	@echo "  SO $@"
 	@$(CXX) $(CXXFLAGS) -shared -o $@ $(filter %.cpp,$^) -lsqlite3
-$(B)/libbloc_vf.so.$(LIBSOVERSION): /verif/sim/vf/plugin_vf.cpp /verif/sim/vf/plugin_vf.h /verif/sim/vf/vf_host.h | $(B)/obj/.dir
+$(B)/libbloc_vf.so.$(LIBSOVERSION): /verif/sim/vf/plugin_vf.cpp /verif/sim/vf/plugin_vf.h /verif/sim/vf/vf_host.h /verif/sim/vf/vf_object.h | $(B)/obj/.dir
 	@echo "  SO $@"
 	@$(CXX) $(CXXFLAGS) '-DVF_MODNAME="vf"' -DVF_MODNUM=1 -shared -o $@ $<
-$(B)/libbloc_vg.so.$(LIBSOVERSION): /verif/sim/vf/plugin_vf.cpp /verif/sim/vf/plugin_vf.h /verif/sim/vf/vf_host.h | $(B)/obj/.dir
+$(B)/libbloc_vg.so.$(LIBSOVERSION): /verif/sim/vf/plugin_vf.cpp /verif/sim/vf/plugin_vf.h /verif/sim/vf/vf_host.h /verif/sim/vf/vf_object.h | $(B)/obj/.dir
 	@echo "  SO $@"
 	@$(CXX) $(CXXFLAGS) '-DVF_MODNAME="vg"' -DVF_MODNUM=2 -shared -o $@ $<
 
